@@ -64,6 +64,10 @@ def judge_case(case):
         return sweep.judge_c01(sweep.rec_from_case(case))[0]
     if k == "spelled":
         return sweep.judge_spelled_c01(sweep.eval_spelled(sweep.spelled_job_from_case(case)))[0]
+    if k == "envx":
+        from mc.explore import envx_run
+
+        return envx_run.replay("C01", case)
     if k == "obs":
         return judge_obs_points((case["text"], case["bg"]))[1]
     raise ValueError(k)
@@ -131,6 +135,9 @@ def run(ctx):
             und += u
             q += 1
         ctx.sub("named_x_named_mode1", states=q, transitions=4 * q, evaluations=4 * q, traces=4 * q, distinct_nontrivial=q, undecidable=und, exhaustive=True)
+    from mc.explore import envx_run
+
+    envx_run.run(ctx, "C01")
     ctx.assumptions += ["minimum table taken from the property text; ratios within 1e-9 of a threshold are not judged (count: undecidable)"]
 
 
